@@ -90,6 +90,11 @@ func deadlocked() bool {
 // program calls tick() once per iteration, and the specification bounds the number
 // of iterations, so more calls mean a loop that runs without messages.
 func runOnce(src string, deadline time.Duration, tickLimit int64) *runResult {
+	return runOnceWith(src, deadline, tickLimit, nil)
+}
+
+// runOnceWith is runOnce with additional host bindings.
+func runOnceWith(src string, deadline time.Duration, tickLimit int64, extra map[string]interface{}) *runResult {
 	r := &runResult{src: src}
 	base := runtime.NumGoroutine()
 	ctx, cancel := context.WithTimeout(context.Background(), deadline)
@@ -100,6 +105,9 @@ func runOnce(src string, deadline time.Duration, tickLimit int64) *runResult {
 	var outs []interface{}
 	var gerrs []string
 	e := env.NewEnv()
+	for name, v := range extra {
+		e.Define(name, v)
+	}
 	e.Define("yield", func(j int64) {
 		for ; j > 0; j-- {
 			runtime.Gosched()
